@@ -19,6 +19,8 @@ import TonVerif.Proofs.TlFuel
 import TonVerif.Proofs.TlBare
 import TonVerif.Proofs.TlVec
 import TonVerif.Proofs.TlMono
+import TonVerif.Proofs.SrcTl
+import TonVerif.Generated.TlFraming
 
 namespace TonVerif.Properties.C14
 open TonVerif TonVerif.Spec.Tl TonVerif.Model.Tl TonVerif.Proofs.Tl
@@ -329,5 +331,109 @@ example : let b : BlockIdExt := ⟨-1, -9223372036854775808, 5, List.replicate 3
 /-- the standard CRC-32 check value ("123456789") and the well-known id of `boolTrue = Bool`. -/
 example : crc32 [49, 50, 51, 52, 53, 54, 55, 56, 57] = 0xCBF43926 := by decide +kernel
 example : tlId [98, 111, 111, 108, 84, 114, 117, 101, 32, 61, 32, 66, 111, 111, 108] = boolTrueId := by decide +kernel
+
+/-! ## Source-regenerated framing arithmetic (`Generated/TlFraming.lean`: re-translated from tl/generator.py on every run)
+
+From `TlSchemas.serialize_field` (bytes / string): `tlShortLen n` = the test `bytes_len <= 253`; `tlShortHeader n` /
+`tlLongHeader n` = what is appended to `temp` in the two branches (`n.to_bytes(1, 'little')`, `b'\xFE' + n.to_bytes(3, 'little')`);
+`tlPad temp` = the statement `if len(temp) % 4: temp += (4 - len(temp) % 4) * b'\x00'`.
+From `TlSchemas.deserialize` (bytes / string): `tlHdrLong data i` = the test `data[i:i+1] == b'\xFE'`; `tlHdrLen`, `tlHdrAttach`,
+`tlHdrNext` = the values of `byte_len`, `attach_len`, `i` after the header `if`; `tlSkip i n a` = the value of `i` after
+`i += byte_len; if (byte_len + attach_len) % 4: i += 4 - (byte_len + attach_len) % 4`; `tlVecTooLong length total i` = the test of the
+vector-length guard (fix 110bf4a) over Python ints. -/
+section Src
+open TonVerif.Proofs.SrcArith2 TonVerif.Proofs.SrcTl
+set_option linter.unusedSimpArgs false
+
+/-- serialising side, for ALL lengths / byte strings: the one-byte form is chosen exactly below 254; the headers are the
+little-endian length in 1 byte, resp. `FE` + 3 bytes (whenever the length has such an encoding: `to_bytes` raises beyond, which is
+the side condition); the padding statement brings the length to the next multiple of 4 with zero bytes. -/
+theorem c14_src_frame_tests (n : Nat) (temp : Bytes) :
+    (Generated.tlShortLen_sideOk n ∧ (n < 256 → Generated.tlShortHeader_sideOk n) ∧ (n < 2 ^ 24 → Generated.tlLongHeader_sideOk n) ∧
+     Generated.tlPad_sideOk temp) ∧
+    Generated.tlShortLen n = decide (n ≤ 253) ∧
+    Generated.tlShortHeader n = natToLE 1 n ∧
+    Generated.tlLongHeader n = 254 :: natToLE 3 n ∧
+    Generated.tlPad temp = (if temp.length % 4 ≠ 0 then temp ++ List.replicate (4 - temp.length % 4) 0 else temp) := by
+  refine ⟨⟨by simp only [Generated.tlShortLen_sideOk] <;> src_prop, ?_, ?_, ?_⟩, ?_, ?_, ?_, ?_⟩
+  · intro h; simp only [Generated.tlShortHeader_sideOk] <;> omega
+  · intro h; simp only [Generated.tlLongHeader_sideOk] <;> omega
+  · simp only [Generated.tlPad_sideOk] <;> omega
+  · simp only [Generated.tlShortLen] <;> src_bool
+  · simp only [Generated.tlShortHeader, py_toBytes_le] <;> src_close
+  · simp only [Generated.tlLongHeader, py_toBytes_le, List.cons_append, List.nil_append, List.singleton_append] <;> src_close
+  · simp only [Generated.tlPad, py_repeat_zero] <;> src_close
+
+/-- `frame` of the hand model (the framing `c14_roundtrip`, `c14_roundtrip_wire` … are proved about) is exactly the composition of
+the regenerated pieces. -/
+theorem c14_src_model_frame (b : Bytes) :
+    frame b = Generated.tlPad ((if Generated.tlShortLen b.length then Generated.tlShortHeader b.length
+                                else Generated.tlLongHeader b.length) ++ b) := by
+  obtain ⟨_, h1, h2, h3, _⟩ := c14_src_frame_tests b.length []
+  have h4 := fun t => (c14_src_frame_tests 0 t).2.2.2.2
+  simp only [h1, h2, h3, h4, frame, decide_eq_true_eq]
+
+/-- parsing side, for ALL inputs and offsets: the long form is recognised by the byte `FE` at `i`; the declared length is the
+little-endian number in `data[i+1:i+4]` resp. `data[i:i+1]`; the offset moves by 4 resp. 1; after the content the offset is
+advanced to the next multiple of 4 counted from the header. -/
+theorem c14_src_read_tests (data : Bytes) (i n a : Nat) :
+    (Generated.tlHdrLong_sideOk data i ∧ Generated.tlHdrLen_sideOk data i ∧ Generated.tlHdrAttach_sideOk data i ∧
+     Generated.tlHdrNext_sideOk data i ∧ Generated.tlSkip_sideOk i n a) ∧
+    Generated.tlHdrLong data i = decide ((data.drop i).take 1 = [254]) ∧
+    Generated.tlHdrLen data i = (if (data.drop i).take 1 = [254] then natOfLE (((data.drop i).drop 1).take 3)
+                                 else natOfLE ((data.drop i).take 1)) ∧
+    Generated.tlHdrAttach data i = (if (data.drop i).take 1 = [254] then 4 else 1) ∧
+    Generated.tlHdrNext data i = i + (if (data.drop i).take 1 = [254] then 4 else 1) ∧
+    Generated.tlSkip i n a = i + n + (if (n + a) % 4 ≠ 0 then 4 - (n + a) % 4 else 0) := by
+  have s1 : Py.slice data i (i + 1) = (data.drop i).take 1 := py_slice_shift0 data i 1
+  have s3 : Py.slice data (i + 1) (i + 4) = ((data.drop i).drop 1).take 3 := by
+    rw [py_slice_shift data i 1 4]; simp [Py.slice, List.take_drop]
+  refine ⟨⟨by simp only [Generated.tlHdrLong_sideOk] <;> src_prop, by simp only [Generated.tlHdrLen_sideOk] <;> src_prop,
+    by simp only [Generated.tlHdrAttach_sideOk] <;> src_prop, by simp only [Generated.tlHdrNext_sideOk] <;> src_prop,
+    by simp only [Generated.tlSkip_sideOk] <;> omega⟩, ?_, ?_, ?_, ?_, ?_⟩
+  · simp only [Generated.tlHdrLong, s1] <;> src_bool
+  · simp only [Generated.tlHdrLen, s1, s3, py_fromBytes_le] <;> src_close
+  · simp only [Generated.tlHdrAttach, s1, s3] <;> src_close
+  · simp only [Generated.tlHdrNext, s1, s3] <;> src_close
+  · simp only [Generated.tlSkip] <;> src_close
+
+/-- `readFrame` of the hand model on `data[i:]` = (content, declared length, bytes consumed) written with the regenerated
+pieces evaluated at the absolute offset `i`. -/
+theorem c14_src_model_read (data : Bytes) (i : Nat) :
+    readFrame (data.drop i) =
+      ((data.drop (Generated.tlHdrNext data i)).take (Generated.tlHdrLen data i), Generated.tlHdrLen data i,
+       Generated.tlSkip (Generated.tlHdrNext data i) (Generated.tlHdrLen data i) (Generated.tlHdrAttach data i) - i) := by
+  obtain ⟨_, _, h2, h3, h4, _⟩ := c14_src_read_tests data i 0 0
+  have h5 := fun i n a => (c14_src_read_tests data i n a).2.2.2.2.2
+  rw [h5, h2, h3, h4]
+  unfold readFrame
+  by_cases h : (data.drop i).take 1 = [254]
+  · simp only [h, if_true, List.drop_drop]
+    refine Prod.ext ?_ (Prod.ext rfl ?_)
+    · simp [Nat.add_comm]
+    · simp only; split <;> omega
+  · simp only [h, if_false, List.drop_drop]
+    refine Prod.ext ?_ (Prod.ext rfl ?_)
+    · simp [Nat.add_comm]
+    · simp only; split <;> omega
+
+/-- the vector-length guard (fix 110bf4a) over Python ints is the model's test on the remaining input: with the 4-byte count read
+at offset `i0` of `data`, the guard fires exactly when fewer than `4 + count` bytes remain from `i0` — also when `i0` is already
+past the end (`len(data) - i` negative) — and then `deserArg` of the hand model fails. -/
+theorem c14_src_vector_guard (data : Bytes) (i0 cnt : Nat) :
+    Generated.tlVecTooLong_sideOk cnt data.length (i0 + 4) ∧
+    Generated.tlVecTooLong cnt data.length ((i0 : Int) + 4) = decide ((data.drop i0).length < 4 + cnt) := by
+  refine ⟨by simp only [Generated.tlVecTooLong_sideOk] <;> src_prop, ?_⟩
+  simp only [Generated.tlVecTooLong, List.length_drop, decide_eq_decide] <;> omega
+
+/-- concrete values: 253 / 254 bytes, the two headers, padding of 5 bytes to 8; a long-form header read at offset 2; a guard that
+fires past the end of the input. -/
+example : Generated.tlShortLen 253 = true ∧ Generated.tlShortLen 254 = false ∧ Generated.tlShortHeader 5 = [5] ∧
+    Generated.tlLongHeader 258 = [254, 2, 1, 0] ∧ Generated.tlPad [5, 1, 2, 3, 4] = [5, 1, 2, 3, 4, 0, 0, 0] ∧
+    Generated.tlHdrLong [9, 9, 254, 2, 1, 0] 2 = true ∧ Generated.tlHdrLen [9, 9, 254, 2, 1, 0] 2 = 258 ∧
+    Generated.tlHdrNext [9, 9, 254, 2, 1, 0] 2 = 6 ∧ Generated.tlSkip 1 5 1 = 8 ∧
+    Generated.tlVecTooLong 0 3 4 = true ∧ Generated.tlVecTooLong 2 6 4 = false := by decide
+
+end Src
 
 end TonVerif.Properties.C14
